@@ -45,6 +45,16 @@ def ensure_deps():
             sys.exit(2)
 
 
+def ensure_atheris():
+    deps = os.path.join(VERIF, '.deps')
+    env = dict(os.environ, PYTHONPATH=deps)
+    if subprocess.run([PY, '-c', 'import atheris'], env=env, capture_output=True).returncode == 0:
+        return True
+    subprocess.run([PY, '-m', 'pip', 'install', '--no-index', '--quiet', '--find-links', WHEELS, '--target', deps,
+                    'atheris'], capture_output=True)
+    return subprocess.run([PY, '-c', 'import atheris'], env=env, capture_output=True).returncode == 0
+
+
 def validate_evidence(ev):
     """The constraints of EVIDENCE.schema.json that apply to this level."""
     errs = []
@@ -141,11 +151,32 @@ def search(pid, a, seed, env, work):
                              env=env, cwd=VERIF, stdout=log,
                              stderr=subprocess.STDOUT)
         procs.append((p, out, log))
+    prop_mod = importlib.import_module('pwv.props.' + pid.lower())
+    n_fuzz = 0
+    if a.tier == 'thorough' and hasattr(prop_mod, 'fuzz_case') and ensure_atheris():
+        # secondary engine: coverage-guided fuzzing of the same run_case, from an empty corpus and from a
+        # corpus directory that persists between the two campaigns of this run
+        for j in range(2):
+            out = os.path.join(work, 'fuzz%d.json' % j)
+            log = open(os.path.join(work, 'fuzz%d.log' % j), 'w')
+            cdir = os.path.join(work, 'fuzzcorpus%d' % j)
+            p = subprocess.Popen([PY, '-B', '-m', 'pwv.fuzz', pid, str(int(prop_mod.FUZZ_RUNS)), str(seed + j), out, cdir],
+                                 env=env, cwd=VERIF, stdout=log, stderr=subprocess.STDOUT)
+            procs.append((p, out, log))
+            n_fuzz += 1
     shards = []
     bad = []
     for i, (p, out, log) in enumerate(procs):
         rc = p.wait()
         log.close()
+        if i >= K:
+            # a fuzz campaign: libFuzzer's own exit status is not a verdict; its result file is
+            if os.path.exists(out):
+                with open(out) as f:
+                    shards.append(json.load(f))
+            else:
+                print('note: fuzz campaign %d produced no result file (inconclusive, ignored)' % (i - K))
+            continue
         if rc != 0 or not os.path.exists(out):
             with open(os.path.join(work, 'shard%d.log' % i)) as f:
                 bad.append('shard %d exit %s: %s' % (i, rc, f.read()[-2000:]))
@@ -247,6 +278,7 @@ def search(pid, a, seed, env, work):
             'shrink_evaluations': sum(s['shrink_evaluations'] for s in shards),
             'max_seen': {k: float('%.4g' % v) for k, v in sorted(metrics.items())},
             'shards': K,
+            'fuzz_campaigns': n_fuzz,
             'units': sum(len(s['units']) for s in shards),
             'units_planned': shards[0]['n_units_total'] if shards else 0,
             'truncated_by_deadline': any(s['truncated'] for s in shards),
